@@ -10,6 +10,7 @@ use crate::Error;
 use flate2::bufread::{
     DeflateDecoder,
     GzDecoder,
+    ZlibDecoder,
 };
 use rhymessage::MessageHeaders;
 use std::io::Read as _;
@@ -111,10 +112,23 @@ fn deflate_decode<B>(body: B) -> Result<Vec<u8>, Error>
 where
     B: AsRef<[u8]>,
 {
-    let body = body.as_ref();
-    let mut decoder = DeflateDecoder::new(body);
+    // The "deflate" coding is officially the zlib format (RFC 1950), but
+    // many senders emit a bare deflate stream (RFC 1951) instead, so look
+    // at the first two bytes to tell which one this is.
+    let encoded_body = body.as_ref();
+    let is_zlib = matches!(
+        encoded_body,
+        [cmf, flg, ..]
+            if cmf & 0x0F == 8
+                && (u16::from(*cmf) << 8 | u16::from(*flg)) % 31 == 0
+    );
     let mut body = Vec::new();
-    decoder.read_to_end(&mut body).map_err(Error::BadContentEncoding)?;
+    if is_zlib {
+        ZlibDecoder::new(encoded_body).read_to_end(&mut body)
+    } else {
+        DeflateDecoder::new(encoded_body).read_to_end(&mut body)
+    }
+    .map_err(Error::BadContentEncoding)?;
     Ok(body)
 }
 
